@@ -62,6 +62,7 @@ let parse_action op args =
   | "tagadd", _ -> ATagAdd
   | "tagdel", [ h ] -> ATagDel (h = "1")
   | "tagupd", [ h ] -> ATagUpd (h = "1")
+  | "mergefail", _ -> AMergeFail
   | "convset", _ -> AConvSet
   | "convremove", _ -> AConvRemove
   | "convadd", _ -> AConvAdd
